@@ -65,6 +65,11 @@ CLAIMED = {
             'above U+10FFFF): nothing decoded is emitted, the error is counted once and marked or reported at its start; every input read is '
             'bounds-guarded and every iteration advances. First sequence of the input only.',
             'decision tables by abstract interpretation over interval classes + iterator typestate (guard domination)', '§5 C12'),
+    'C17': ('other',
+            'Validator plumbing decided structurally per instantiation (fold order over all validators, message forwarding, grouping/append, '
+            'cap comparison, final throw iff non-empty map, entry-point protocol) and the built-in validators decided by abstract interpretation '
+            'over the finite orderings of value/size vs bounds x loaded. Path strings and the Email/Phone grammars are not decided.',
+            'AST rules per instantiation + decision tables over finite orderings', '§5 C17'),
     'C18': ('other',
             'Every container/wrapper loader carries its stale-state eliminator on every normal CFG path of every load instantiation '
             '(final resize(counter) with one increment per element load; clear() before insertion; clear iff Clean; reset only on the '
